@@ -57,6 +57,26 @@ Definition de_dbg (e : derr) : string :=
   | DWrongState ex ac o => "WrongState { expected: " +++ q ex +++ ", actual: " +++ q ac +++ ", operation: " +++ q o +++ " }"
   end.
 
+(* #[derive(PartialEq)]: structural equality *)
+Definition akind_eqb (x y : akind) : bool :=
+  match x, y with
+  | AKGuard a, AKGuard b => String.eqb a b
+  | AKAction a, AKAction b => String.eqb a b
+  | AKInvalid, AKInvalid => true
+  | _, _ => false
+  end.
+Definition gerr_eqb (x y : gerr) : bool :=
+  String.eqb (ge_guard x) (ge_guard y) && String.eqb (ge_event x) (ge_event y) && akind_eqb (ge_kind x) (ge_kind y).
+Definition derr_eqb (x y : derr) : bool :=
+  match x, y with
+  | DInvalid a b, DInvalid c d => String.eqb a c && String.eqb b d
+  | DGuardFailed a b, DGuardFailed c d => String.eqb a c && String.eqb b d
+  | DActionFailed a b, DActionFailed c d => String.eqb a c && String.eqb b d
+  | DWrongState a b c, DWrongState d e f => String.eqb a d && String.eqb b e && String.eqb c f
+  | _, _ => false
+  end.
+Definition b01 (b : bool) : string := if b then "1" else "0".
+
 Definition k4_lines (names : list ident) : list string :=
   flat_map (fun a => flat_map (fun b =>
     [ "te_invalid|" +++ a +++ "|" +++ b +++ "|" +++ te_s (te_invalid_transition a b);
@@ -71,7 +91,16 @@ Definition k4_lines (names : list ident) : list string :=
     ++ flat_map (fun c =>
          [ "te_guard|" +++ a +++ "|" +++ b +++ "|" +++ c +++ "|" +++ te_s (te_guard_failed a b c);
            "de_wrong|" +++ a +++ "|" +++ b +++ "|" +++ c +++ "|" +++ de_s (de_wrong_state a b c);
-           "dbg_de_wrong|" +++ a +++ "|" +++ b +++ "|" +++ c +++ "|" +++ de_dbg (de_wrong_state a b c) ]
+           "dbg_de_wrong|" +++ a +++ "|" +++ b +++ "|" +++ c +++ "|" +++ de_dbg (de_wrong_state a b c);
+           "eq_de|" +++ a +++ "|" +++ b +++ "|" +++ c +++ "|" +++
+             b01 (derr_eqb (de_wrong_state a b "op") (de_wrong_state a c "op")) +++
+             b01 (derr_eqb (de_wrong_state b a "op") (de_wrong_state c a "op")) +++
+             b01 (derr_eqb (de_wrong_state a "x" b) (de_wrong_state a "x" c)) +++
+             b01 (derr_eqb (de_invalid_transition a b) (de_invalid_transition a c)) +++
+             b01 (derr_eqb (de_guard_failed b a) (de_action_failed b a));
+           "eq_ge|" +++ a +++ "|" +++ b +++ "|" +++ c +++ "|" +++
+             b01 (gerr_eqb (ge_new a b) (ge_new a c)) +++
+             b01 (gerr_eqb (ge_with_kind a "e" (AKGuard b)) (ge_with_kind a "e" (AKGuard c))) ]
          ++ flat_map (fun k =>
               [ "ge_with|" +++ a +++ "|" +++ b +++ "|" +++ kind_s k +++ "|" +++ ge_s (ge_with_kind a b k);
                 "from_ge|" +++ a +++ "|" +++ b +++ "|" +++ kind_s k +++ "|" +++ de_s (from_guard_error (ge_with_kind a b k));
